@@ -28,8 +28,8 @@ ASSUMPTIONS = [
 BOUNDS = {"quick": {"program_size": 3}, "thorough": {"program_size": 4}}
 CHUNK = 8
 MENU = frozenset({"assign", "declare", "declare-use", "declare-tagged", "declare-attr", "undef-read", "late-read", "if", "if-else",
-                  "for", "try-except", "try-nameerror", "return", "raise", "none-global-read"})
-SPECIAL = frozenset({"declare", "declare-use", "declare-tagged", "declare-attr", "undef-read", "late-read", "none-global-read"})
+                  "for", "try-except", "try-nameerror", "return", "raise", "none-global-read", "declare-ann-raises"})
+SPECIAL = frozenset({"declare", "declare-use", "declare-tagged", "declare-attr", "undef-read", "late-read", "none-global-read", "declare-ann-raises"})
 PRELUDE = "from ptera import tag\n"
 
 
@@ -283,7 +283,9 @@ def check_case(prog, info, route, supplied, x, part, record=True, late_deleted=F
             if isinstance(late, BaseException) or late != inf:
                 return ("declaration-error-info", f"info() after the probes ended gives {late!r}, while they were active {inf!r}")
             want_ann = tag.A if f"{failing}: tag.A" in prog.src else int
-            if inf.get("annotation") is not want_ann and inf.get("annotation") != want_ann:
+            if f"{failing}: GNONE.nope" in prog.src:
+                pass  # an annotation that cannot be evaluated has no recorded value: not asserted
+            elif inf.get("annotation") is not want_ann and inf.get("annotation") != want_ann:
                 return ("declaration-error-annotation", f"info() annotation {inf.get('annotation')!r}, declared {want_ann!r}")
             if inf.get("provenance") != "body":
                 return ("declaration-error-provenance", f"info() provenance {inf.get('provenance')!r}")
